@@ -496,6 +496,18 @@ func c11CheckWrappers(ctx *idr.Node, xp string, expr *xpath.Expr, nodes []*idr.N
 	if !same {
 		return fmt.Sprintf("MatchAll returns %d nodes, QueryIter over the same expression %d (or in another order)", len(all), len(nodes))
 	}
+	// and through the process-wide expression cache (the default of MatchAll): same expression text, same selection
+	cached, err := idr.MatchAll(ctx, xp)
+	if err != nil {
+		return fmt.Sprintf("MatchAll (expression cache on) fails on an expression that compiles: %v", err)
+	}
+	same = len(cached) == len(nodes)
+	for i := 0; same && i < len(cached); i++ {
+		same = cached[i] == nodes[i]
+	}
+	if !same {
+		return fmt.Sprintf("MatchAll with the expression cache on returns %d nodes, with the cache off %d (or in another order)", len(cached), len(nodes))
+	}
 	if any := idr.MatchAny(ctx, expr); any != (len(nodes) > 0) {
 		return fmt.Sprintf("MatchAny = %v but the expression selects %d nodes", any, len(nodes))
 	}
